@@ -33,7 +33,12 @@
 (*     time stamp of min()/max() among points with the same extreme value: *)
 (*     any of them (cells / row times carry the alternatives)              *)
 (* that the answer is a FUNCTION of contents and query text (the same      *)
-(* under every configuration) is checked by the replay.                    *)
+(* under every configuration) is checked by the replay.  Which tied point  *)
+(* the implementation returns is fixed by its tie rules (TieCell/TieTimes, *)
+(* deviation "tie_asimpl": same time => greater value, same value =>       *)
+(* earliest time); they are deterministic except where the store and the   *)
+(* executor disagree (F-C08-9), so a configuration dependent answer is     *)
+(* attributed to F-C08-9 only if every answer is one these rules predict.  *)
 (***************************************************************************)
 EXTENDS Integers, Sequences, FiniteSets, TLC, SequencesExt, FiniteSetsExt
 
@@ -125,6 +130,33 @@ FillColD(cells, mode, fillv, isCount, dv) ==
   IF mode = "prev" /\ "fillprev_wild" \in dv
     THEN [i \in 1..Len(cells) |-> IF cells[i] = NullCell THEN WildCell ELSE cells[i]]
     ELSE FillCol(cells, mode, fillv, isCount)
+
+\* F-C08-4 as implemented (fill_transform.go: prevReadAts = the immediately preceding INPUT row): a cell without value
+\* takes the value this column has in the nearest preceding PRESENT window of the series (pres[i]: some column has a
+\* value in window i).  If the column is null there too the outcome depends on the chunking (stale prevValues, scan from
+\* row 0 of the chunk: WildCell); windows before the first present one stay null; a null cell of the first present
+\* window may receive the last value of the previous series (WildCell).  st: "lead" | "val" | "wild"
+RECURSIVE FillPrevRow(_, _, _, _)
+FillPrevRow(cells, pres, st, pv) ==
+  IF cells = <<>> THEN <<>>
+  ELSE LET c   == Head(cells)
+           p   == Head(pres)
+           out == IF c # NullCell THEN c
+                  ELSE CASE st = "lead" /\ ~p -> NullCell
+                         [] st = "val"         -> pv
+                         [] OTHER              -> WildCell
+           nst == IF ~p THEN st ELSE IF c # NullCell THEN "val" ELSE "wild"
+           npv == IF p /\ c # NullCell THEN c ELSE pv
+       IN <<out>> \o FillPrevRow(Tail(cells), Tail(pres), nst, npv)
+
+\* FillColD with the windows' presence flags: "fillprev_prevrow" = the narrow as-implemented model of F-C08-4
+\* mutation seed "fill_skips_present_cells": a window in which some column has a value is passed on as it is - its
+\* cells without value are not filled (the part-1 image of the fast-path slip of the chunk machine)
+FillColP(cells, pres, mode, fillv, isCount, dv) ==
+  IF mode = "prev" /\ "fillprev_prevrow" \in dv THEN FillPrevRow(cells, pres, "lead", NullCell)
+  ELSE IF "fill_skips_present_cells" \in dv /\ mode \in {"prev", "num"}
+    THEN LET f == FillCol(cells, mode, fillv, isCount) IN [i \in 1..Len(cells) |-> IF pres[i] THEN cells[i] ELSE f[i]]
+  ELSE FillColD(cells, mode, fillv, isCount, dv)
 
 
 -----------------------------------------------------------------------------
@@ -235,6 +267,24 @@ CallTimes(fn, P, anyfl) ==
     [] fn = "first" -> <<PMinT(P)>>
     [] OTHER        -> <<PMaxT(P)>>
 
+\* the implementation's tie rules (deviation "tie_asimpl"; executor/agg_func.go First/Last/Min/MaxMerge and ...Reduce,
+\* lib/record/reccord_functions.go Update...First/Last/Min/Max): among points with the same extreme time stamp
+\* first()/last() return the GREATEST value; the point of a sole min()/max() selector is the EARLIEST one with the
+\* extreme value.  The rules are deterministic, so the answer does not depend on where chunk or reader boundaries
+\* fall.  Two exceptions (F-C08-9): a boolean first() (executor: false wins, store: true wins) and descending queries
+\* (store side reducers pick by position): there the alternatives of the language remain.
+TieCell(fn, kind, P, desc) ==
+  IF P = {} THEN NullCell
+  ELSE IF fn \in {"first", "last"} /\ ~desc /\ ~(fn = "first" /\ kind = "bool")
+    THEN LET T == IF fn = "first" THEN PMinT(P) ELSE PMaxT(P)
+         IN <<"v", Max({p[2] : p \in {x \in P : x[1] = T}})>>
+    ELSE CallCell(fn, P, FALSE)
+TieTimes(fn, P, desc) ==
+  IF fn \in {"min", "max"} /\ ~desc
+    THEN LET V == IF fn = "min" THEN PMinV(P) ELSE PMaxV(P)
+         IN <<Min({p[1] : p \in {x \in P : x[2] = V}})>>
+    ELSE CallTimes(fn, P, FALSE)
+
 Buckets(q, dv) ==
   IF q.w = NONE THEN <<NONE>>
   ELSE LET b0 == BucketD(q.tlo, q.w, dv)
@@ -248,18 +298,34 @@ AggSeries1(D, q, g, desc, dv) ==
       bs    == IF desc /\ "desc_not_reversed" \notin dv THEN Reverse(asc) ELSE asc
       InB(r, b) == q.w = NONE \/ BucketD(r.t, q.w, dv) = b
       P(b, c)   == Pts({r \in S : InB(r, b)}, q.calls[c].f, dv)
-      anyfl == desc /\ "firstlast_any" \in dv
+      \* "firstlast_any_asc": deviation model of F-C09-1 (open finding of C09, first_last_reader.go reports the chunk's
+      \* first / last time): an ascending first()/last() served from the statistics of a file with several segments may
+      \* carry the time of ANY row of the group, in or out of the range, and - merged by that time - any point's value
+      anyasc == ~desc /\ "firstlast_any_asc" \in dv
+      anyfl == (desc /\ "firstlast_any" \in dv) \/ anyasc
       \* deviation model of F-C08-2 only: every point of the group, whatever its time stamp
       SAll  == {r \in D.rows : Where([q EXCEPT !.tlo = NONE, !.thi = NONE], r) /\ GroupKey(r, q.dims) = g}
       PAll(c) == Pts(SAll, q.calls[c].f, dv)
+      tie   == "tie_asimpl" \in dv
       Cell(b, c) == LET fn == q.calls[c].fn
                     IN IF anyfl /\ fn \in {"first", "last"} /\ P(b, c) # {}
-                         THEN CallCell(fn, PAll(c), TRUE) ELSE CallCell(fn, P(b, c), FALSE)
+                         THEN CallCell(fn, PAll(c), TRUE)
+                         ELSE IF tie THEN TieCell(fn, D.kinds[q.calls[c].f], P(b, c), desc)
+                         ELSE CallCell(fn, P(b, c), FALSE)
       raw   == [c \in 1..nc |-> [i \in 1..Len(bs) |-> Cell(bs[i], c)]]
       mode  == IF q.w = NONE THEN "none" ELSE q.fill
-      col0  == [c \in 1..nc |-> FillColD(raw[c], mode, q.fillv, q.calls[c].fn = "count", dv)]
-      \* deviation model of F-C08-5 only: a descending filled GROUP BY tags, time() answer may lose values
-      lossy == desc /\ "descfill_lossy" \in dv /\ q.dims # <<>> /\ mode # "none"
+      pres  == [i \in 1..Len(bs) |-> \E c \in 1..nc : raw[c][i] # NullCell]
+      \* deviation model of F-C08-10 only (fill_transform.go fast path): GROUP BY time() without tag dimension,
+      \* fill(null) and a value in every window: the first chunk is forwarded untouched, count() cells stay null
+      fast  == "fastpath_null_count" \in dv /\ q.dims = <<>> /\ mode = "null" /\ \A i \in 1..Len(bs) : pres[i]
+      col0  == [c \in 1..nc |-> IF fast THEN raw[c]
+                                 ELSE FillColP(raw[c], pres, mode, q.fillv, q.calls[c].fn = "count", dv)]
+      \* deviation model of F-C08-5 only: a descending filled GROUP BY tags, time() answer may lose values; the same
+      \* split path of FillTransform is taken without tags when the windows outnumber twice the inner chunk size
+      \* ("descfill_lossy_nodims", attributed by the replay only under such a configuration)
+      lossy == /\ desc /\ mode # "none"
+               /\ \/ "descfill_lossy" \in dv /\ q.dims # <<>>
+                  \/ "descfill_lossy_nodims" \in dv /\ q.dims = <<>>
       col   == [c \in 1..nc |-> [i \in 1..Len(bs) |->
                   IF lossy /\ raw[c][i] # NullCell
                     THEN <<"o", col0[c][i], FillOfNull(mode, q.fillv, q.calls[c].fn = "count")>>
@@ -267,8 +333,10 @@ AggSeries1(D, q, g, desc, dv) ==
       HasVal(i) == \E c \in 1..nc : raw[c][i] # NullCell
       sole  == q.w = NONE /\ nc = 1 /\ q.calls[1].fn \in Selectors
       TimeOf(i) == IF q.w # NONE THEN <<bs[i]>>
-                   ELSE IF sole THEN (IF anyfl THEN CallTimes(q.calls[1].fn, PAll(1), TRUE)
-                                               ELSE CallTimes(q.calls[1].fn, P(bs[i], 1), FALSE))
+                   ELSE IF sole THEN (IF anyasc /\ q.calls[1].fn \in {"first", "last"} THEN SortAsc({r.t : r \in SAll})
+                                      ELSE IF anyfl THEN CallTimes(q.calls[1].fn, PAll(1), TRUE)
+                                      ELSE IF tie THEN TieTimes(q.calls[1].fn, P(bs[i], 1), desc)
+                                      ELSE CallTimes(q.calls[1].fn, P(bs[i], 1), FALSE))
                    ELSE <<IF q.tlo = NONE THEN EPOCH ELSE q.tlo>>
       keep  == SelectSeq([i \in 1..Len(bs) |-> i], LAMBDA i : mode # "none" \/ HasVal(i))
   IN [tags |-> TagsOfKey(q.dims, g),
@@ -324,17 +392,48 @@ WellFormed(D, q) ==
 CONSTANTS DataChoices(_), QueryChoices(_, _)
 
 \* as-implemented deviation models of the open findings (known_findings.json): the answers they predict
+\* <<finding id(s), deviations>>; a third element "any": the union is evaluated where at least one of its deviations
+\* applies (default: where all of them do).  F-C08-4 has two models: "fillprev_prevrow" (exact wherever the preceding
+\* input row decides; valid when the fill operator sees the whole answer of an ungrouped query as ONE chunk) and
+\* "fillprev_wild" (other configurations: the outcome depends on the chunking and on the neighbouring series); the
+\* replay picks the one that fits the configuration
 KnownDevs == << <<"F-C08-1", {"cond_field_keeps_row"}>>, <<"F-C08-2", {"firstlast_any"}>>,
-               <<"F-C08-4", {"fillprev_wild"}>>, <<"F-C08-5", {"descfill_lossy"}>>,
-               <<"F-C08-1+2+4+5", {"cond_field_keeps_row", "firstlast_any", "fillprev_wild", "descfill_lossy"}>> >>
+               <<"F-C08-4", {"fillprev_wild"}>>, <<"F-C08-4", {"fillprev_prevrow"}>>,
+               <<"F-C08-5", {"descfill_lossy"}>>, <<"F-C08-5", {"descfill_lossy_nodims"}>>,
+               <<"F-C08-2+4+5", {"firstlast_any", "fillprev_wild", "descfill_lossy_nodims"}, "any">>,
+               <<"F-C08-10", {"fastpath_null_count"}>>, <<"F-C08-2+10", {"firstlast_any", "fastpath_null_count"}>>,
+               <<"F-C09-1", {"firstlast_any_asc"}>>,
+               <<"F-C08-2+4", {"firstlast_any", "fillprev_prevrow"}>>,
+               <<"F-C08-1+2+4+5", {"cond_field_keeps_row", "firstlast_any", "fillprev_wild", "descfill_lossy"}, "any">> >>
+\* can the deviation change the answer of q at all?  (saves the evaluation where it cannot)
+DevApplies(dv, q) ==
+  \/ "cond_field_keeps_row" \in dv /\ q.kind = "raw" /\ q.fldc.k # "none"
+  \/ "firstlast_any" \in dv /\ q.kind = "agg" /\ \E i \in 1..Len(q.calls) : q.calls[i].fn \in {"first", "last"}
+  \/ "firstlast_any_asc" \in dv /\ q.kind = "agg" /\ q.w = NONE /\ q.fldc.k = "none"
+       /\ \E i \in 1..Len(q.calls) : q.calls[i].fn \in {"first", "last"}
+  \/ "fillprev_prevrow" \in dv /\ q.kind = "agg" /\ q.w # NONE /\ q.fill = "prev" /\ q.dims = <<>>
+  \/ "fillprev_wild" \in dv /\ q.kind = "agg" /\ q.w # NONE /\ q.fill = "prev"
+  \/ "descfill_lossy" \in dv /\ q.kind = "agg" /\ q.w # NONE /\ q.dims # <<>> /\ q.fill # "none"
+  \/ "descfill_lossy_nodims" \in dv /\ q.kind = "agg" /\ q.w # NONE /\ q.dims = <<>> /\ q.fill # "none"
+  \/ "fastpath_null_count" \in dv /\ q.kind = "agg" /\ q.w # NONE /\ q.dims = <<>> /\ q.fill = "null"
+  \/ "tie_asimpl" \in dv /\ q.kind = "agg" /\ \E i \in 1..Len(q.calls) : q.calls[i].fn \in Selectors
 Answers(D, q) ==
   LET a  == Eval(D, q, FALSE, Dev)
       d  == Eval(D, q, TRUE, Dev)
-      K(i) == LET ka == Eval(D, q, FALSE, Dev \cup KnownDevs[i][2])
+      \* a union of deviations: "any" = where at least one of them applies, else where all of them apply
+      Appl(i) == IF Len(KnownDevs[i]) = 3 THEN DevApplies(KnownDevs[i][2], q)
+                 ELSE \A x \in KnownDevs[i][2] : DevApplies({x}, q)
+      K(i) == IF ~Appl(i) THEN [id |-> KnownDevs[i][1], devs |-> <<>>, differs |-> FALSE, asc |-> <<>>, desc |-> <<>>]
+              ELSE
+              LET ka == Eval(D, q, FALSE, Dev \cup KnownDevs[i][2])
                   kd == Eval(D, q, TRUE, Dev \cup KnownDevs[i][2])
-              IN [id |-> KnownDevs[i][1], differs |-> ka # a \/ kd # d, asc |-> ka, desc |-> kd]
+              IN [id |-> KnownDevs[i][1], devs |-> SetToSeq(KnownDevs[i][2]), differs |-> ka # a \/ kd # d, asc |-> ka, desc |-> kd]
       ks == [i \in 1..Len(KnownDevs) |-> K(i)]
-  IN [asc |-> a, desc |-> d, known |-> SelectSeq(ks, LAMBDA k : k.differs)]
+      \* the answers under the implementation's tie rules (a refinement of asc / desc: fewer alternatives); <<>> if equal
+      ta == IF DevApplies({"tie_asimpl"}, q) THEN Eval(D, q, FALSE, Dev \cup {"tie_asimpl"}) ELSE a
+      td == IF DevApplies({"tie_asimpl"}, q) THEN Eval(D, q, TRUE, Dev \cup {"tie_asimpl"}) ELSE d
+  IN [asc |-> a, desc |-> d, known |-> SelectSeq(ks, LAMBDA k : k.differs),
+      tie |-> IF ta = a /\ td = d THEN <<>> ELSE <<[asc |-> ta, desc |-> td]>>]
 
 Init == /\ data = NoData /\ cur = NoQ /\ hist = <<>> /\ cm = [on |-> FALSE]
 
@@ -421,28 +520,70 @@ LawGroupPartition ==
          SumSeq([s \in 1..Len(g) |-> Cnt(g[s].rows[1].c[c])]) = IF u = <<>> THEN 0 ELSE Cnt(u[1].rows[1].c[c])
 
 \* fill(none) = fill(null) without the rows that have no value; fill never changes a value
-LawFill ==
-  (cur.kind = "agg" /\ cur.w # NONE) =>
-    LET none == Eval(data, [cur EXCEPT !.fill = "none"], FALSE, Dev)
-        this == Eval(data, cur, FALSE, Dev)
-    IN /\ Len(none) = Len(this)
+LawFillOn(none, this) ==
+       /\ Len(none) = Len(this)
        /\ \A s \in 1..Len(none) : \A i \in 1..Len(none[s].rows) :
             \E j \in 1..Len(this[s].rows) :
                /\ this[s].rows[j].t = none[s].rows[i].t
                /\ \A c \in 1..Len(cur.calls) :
                      none[s].rows[i].c[c] # NullCell => this[s].rows[j].c[c] = none[s].rows[i].c[c]
        /\ cur.fill # "none" => \A s \in 1..Len(this) : Len(this[s].rows) = Len(Buckets(cur, Dev))
+\* what FILL puts into every single cell, stated over the fill(none) answer (without FillCol): a cell with a value is
+\* kept; a cell without one becomes the number / the column's latest earlier value of this series / 0 for count()
+LawFillCellsOn(none, this) ==
+    \A s \in 1..Len(this) : \A j \in 1..Len(this[s].rows) : \A c \in 1..Len(cur.calls) :
+         LET t    == this[s].rows[j].t[1]
+             src  == SelectSeq(none[s].rows, LAMBDA r : r.t[1] <= t /\ r.c[c] # NullCell)
+             here == src # <<>> /\ src[Len(src)].t[1] = t
+         IN this[s].rows[j].c[c] =
+              IF here THEN src[Len(src)].c[c]
+              ELSE CASE cur.fill = "num"  -> <<"c", cur.fillv>>
+                     [] cur.fill = "prev" -> IF src = <<>> THEN NullCell ELSE src[Len(src)].c[c]
+                     [] OTHER             -> IF cur.calls[c].fn = "count" THEN <<"c", 0>> ELSE NullCell
+LawFill ==
+  (cur.kind = "agg" /\ cur.w # NONE) =>
+    LET none == Eval(data, [cur EXCEPT !.fill = "none"], FALSE, Dev)
+        this == Eval(data, cur, FALSE, Dev)
+    IN /\ LawFillOn(none, this)
+       /\ cur.fill # "none" => LawFillCellsOn(none, this)
 
-Laws == LawCount /\ LawBucket /\ LawDesc /\ LawLimit /\ LawGroupPartition /\ LawFill
+\* the implementation's tie rules pick one of the points the language allows, and (ascending, not a boolean first())
+\* exactly one: the answer under "tie_asimpl" refines the answer, cell by cell and row time by row time
+AltSet(x) == {x[i] : i \in 2..Len(x)}
+LawTie ==
+  (cur.kind = "agg" /\ DevApplies({"tie_asimpl"}, cur) /\ (cur.w = NONE \/ cur.fill = "none")) =>
+    \A desc \in {FALSE} :
+      LET a == Eval(data, cur, desc, Dev)
+          t == Eval(data, cur, desc, Dev \cup {"tie_asimpl"})
+      IN /\ Len(a) = Len(t)
+         /\ \A s \in 1..Len(a) :
+              /\ a[s].tags = t[s].tags /\ Len(a[s].rows) = Len(t[s].rows)
+              /\ \A j \in 1..Len(a[s].rows) :
+                   /\ {t[s].rows[j].t[i] : i \in 1..Len(t[s].rows[j].t)} \subseteq {a[s].rows[j].t[i] : i \in 1..Len(a[s].rows[j].t)}
+                   /\ ~desc => Len(t[s].rows[j].t) = 1
+                   /\ \A c \in 1..Len(cur.calls) :
+                        LET x == a[s].rows[j].c[c]
+                            y == t[s].rows[j].c[c]
+                        IN IF x[1] = "v" THEN /\ y[1] = "v" /\ AltSet(y) \subseteq AltSet(x) /\ AltSet(y) # {}
+                                              /\ (~desc /\ data.kinds[cur.calls[c].f] # "bool") => Len(y) = 2
+                           ELSE y = x
+
+Laws == LawCount /\ LawBucket /\ LawDesc /\ LawLimit /\ LawGroupPartition /\ LawFill /\ LawTie
 
 -----------------------------------------------------------------------------
 (* Part 2: the chunk machine                                                *)
-(* The stream is what the store delivers for "SELECT sum(fA), count(fB)     *)
-(* ... GROUP BY <group>, time(w) FILL(mode)" and "SELECT fA LIMIT n OFFSET  *)
-(* m": elements [g, w, v] sorted by (group, window); v is the value of fA   *)
-(* (NULL = the row has no fA), fB is present iff v = 2.  Arrive/Cut build   *)
-(* every stream up to CMaxLen under every partition into chunks; AggOp,     *)
-(* FillOp and LimitOp process one chunk at a time and carry state.          *)
+(* The stream is what the store delivers for "SELECT sum(fA), count(fB),    *)
+(* last(fA) ... GROUP BY <group>, time(w) FILL(mode)" and "SELECT fA LIMIT  *)
+(* n OFFSET m": elements [g, w, v] sorted by (group, window); v is the      *)
+(* value of fA (NULL = the row has no fA), fB is present iff v = 2; the     *)
+(* elements of one (group, window) carry the SAME time stamp (rows of       *)
+(* different series), so last(fA) is decided by the tie rule of part 1.     *)
+(* Arrive/Cut build every stream up to CMaxLen under every partition into   *)
+(* chunks; AggOp, FillOp and LimitOp process one chunk at a time and carry  *)
+(* state.  CutLast = the chunk is the last one: the aggregate operator      *)
+(* flushes with it, so the fill operator sees the remaining rows as ONE     *)
+(* chunk - with an empty history that is "the first chunk is already the    *)
+(* complete answer" (the fast path of fill_transform.go).                   *)
 
 CElem == [g : CGroups, w : CWindows, v : CVals]
 CLeq(a, b) == a.g < b.g \/ (a.g = b.g /\ a.w <= b.w)
@@ -456,18 +597,23 @@ CSumCell(es) == LET xs == SelectSeq(es, LAMBDA e : e.v # NULL)
                 IN IF xs = <<>> THEN NullCell ELSE <<"v", SumSeq([i \in 1..Len(xs) |-> xs[i].v])>>
 CCntCell(es) == LET xs == SelectSeq(es, LAMBDA e : e.v = 2)
                 IN IF xs = <<>> THEN NullCell ELSE <<"c", Len(xs)>>
+\* last(fA) over points with equal time stamps: the tie rule of part 1 (each element is a point of its own series)
+CLastCell(es) == TieCell("last", "int", {<<0, es[i].v, i>> : i \in {j \in 1..Len(es) : es[j].v # NULL}}, FALSE)
 
 DirectGroup(s, g, mode) ==
   LET ws   == [i \in 1..(WHi - WLo + 1) |-> WLo + i - 1]
       At(w) == SelectSeq(s, LAMBDA e : e.g = g /\ e.w = w)
       raw1 == [i \in 1..Len(ws) |-> CSumCell(At(ws[i]))]
       raw2 == [i \in 1..Len(ws) |-> CCntCell(At(ws[i]))]
+      raw3 == [i \in 1..Len(ws) |-> CLastCell(At(ws[i]))]
       c1   == FillCol(raw1, mode, CFillV, FALSE)
       c2   == FillCol(raw2, mode, CFillV, TRUE)
+      c3   == FillCol(raw3, mode, CFillV, FALSE)
       keep == SelectSeq([i \in 1..Len(ws) |-> i],
                         LAMBDA i : mode # "none" \/ raw1[i] # NullCell \/ raw2[i] # NullCell)
       some == \E i \in 1..Len(ws) : raw1[i] # NullCell \/ raw2[i] # NullCell
-  IN IF ~some THEN <<>> ELSE [j \in 1..Len(keep) |-> [g |-> g, w |-> ws[keep[j]], a |-> c1[keep[j]], b |-> c2[keep[j]]]]
+  IN IF ~some THEN <<>> ELSE [j \in 1..Len(keep) |-> [g |-> g, w |-> ws[keep[j]], a |-> c1[keep[j]], b |-> c2[keep[j]],
+                                                        l |-> c3[keep[j]]]]
 
 RECURSIVE DirectGroups(_, _, _)
 DirectGroups(s, gs, mode) ==
@@ -477,13 +623,18 @@ DirectFill(s, mode) == DirectGroups(s, SortAsc({s[i].g : i \in 1..Len(s)}), mode
 DirectLimit(s, off, lim) == LimitSeq(SelectSeq(s, LAMBDA e : e.v # NULL), off, lim, {})
 
 ---- (* AggOp: agg_transform.go - one pending (group, window) is carried *)
-AggEmpty == [has |-> FALSE, g |-> 0, w |-> 0, sum |-> 0, n1 |-> 0, n2 |-> 0]
+\* lst: last(fA) of the pending (group, window) so far (NULL: no point yet), merged as agg_func.go LastMerge does
+AggEmpty == [has |-> FALSE, g |-> 0, w |-> 0, sum |-> 0, n1 |-> 0, n2 |-> 0, lst |-> NULL]
 AggRow(st) == [g |-> st.g, w |-> st.w,
                a |-> IF st.n1 = 0 THEN NullCell ELSE <<"v", st.sum>>,
-               b |-> IF st.n2 = 0 THEN NullCell ELSE <<"c", st.n2>>]
+               b |-> IF st.n2 = 0 THEN NullCell ELSE <<"c", st.n2>>,
+               l |-> IF st.lst = NULL THEN NullCell ELSE <<"v", st.lst>>]
+\* LastMerge / LastReduce: the times are equal, the greater value wins
+LastOf(prev, v) == IF v = NULL THEN prev ELSE IF prev = NULL \/ v > prev THEN v ELSE prev
 AggAdd(st, e) == [st EXCEPT !.sum = IF e.v = NULL THEN @ ELSE @ + e.v,
                             !.n1 = IF e.v = NULL THEN @ ELSE @ + 1,
-                            !.n2 = IF e.v = 2 THEN @ + 1 ELSE @]
+                            !.n2 = IF e.v = 2 THEN @ + 1 ELSE @,
+                            !.lst = LastOf(@, e.v)]
 RECURSIVE AggChunk(_, _, _)
 \* returns <<state, emitted rows>>
 AggChunk(st, chunk, out) ==
@@ -494,10 +645,17 @@ AggChunk(st, chunk, out) ==
             ELSE AggChunk(AggAdd([AggEmpty EXCEPT !.has = TRUE, !.g = e.g, !.w = e.w], e), Tail(chunk),
                           IF st.has THEN Append(out, AggRow(st)) ELSE out)
 AggFlush(st) == IF st.has THEN <<AggRow(st)>> ELSE <<>>
+\* mutation seed "last_later_chunk_wins": merging the carried partial result with the one of the next chunk, the later
+\* chunk wins on equal time stamps (the carried value is forgotten when the chunk continues the pending window with a value)
+AggCarry(st, chunk) ==
+  IF "last_later_chunk_wins" \in Dev /\ st.has
+     /\ \E i \in 1..Len(chunk) : /\ chunk[i].v # NULL
+                                 /\ \A j \in 1..i : chunk[j].g = st.g /\ chunk[j].w = st.w
+    THEN [st EXCEPT !.lst = NULL] ELSE st
 
 ---- (* FillOp: fill_transform.go - current group, next window and previous values are carried *)
-FillEmpty == [has |-> FALSE, g |-> 0, nw |-> WLo, pa |-> NullCell, pb |-> NullCell, some |-> FALSE, held |-> <<>>]
-\* one output row for window w of group g with raw cells a, b (NullCell = no value)
+FillEmpty == [has |-> FALSE, g |-> 0, nw |-> WLo, pa |-> NullCell, pb |-> NullCell, pl |-> NullCell, some |-> FALSE, held |-> <<>>]
+\* one output row for window w of group g with raw cells a, b, l (NullCell = no value)
 FillCell(raw, prev, mode, isCount) ==
   IF raw # NullCell THEN raw
   ELSE CASE mode = "prev" -> prev
@@ -505,14 +663,15 @@ FillCell(raw, prev, mode, isCount) ==
          [] mode = "null" -> IF isCount THEN <<"c", 0>> ELSE NullCell
          [] OTHER         -> NullCell
 \* rows of a group are held back until the group is known to have a value (a series without any value is not returned)
-FillPut(st, w, a, b, mode) ==
-  LET row  == [g |-> st.g, w |-> w, a |-> FillCell(a, st.pa, mode, FALSE), b |-> FillCell(b, st.pb, mode, TRUE)]
+FillPut(st, w, a, b, l, mode) ==
+  LET row  == [g |-> st.g, w |-> w, a |-> FillCell(a, st.pa, mode, FALSE), b |-> FillCell(b, st.pb, mode, TRUE),
+               l |-> FillCell(l, st.pl, mode, FALSE)]
       drop == mode = "none" /\ a = NullCell /\ b = NullCell
       some == st.some \/ a # NullCell \/ b # NullCell
-  IN [st EXCEPT !.nw = w + 1, !.pa = row.a, !.pb = row.b, !.some = some,
+  IN [st EXCEPT !.nw = w + 1, !.pa = row.a, !.pb = row.b, !.pl = row.l, !.some = some,
                 !.held = IF drop THEN @ ELSE Append(@, row)]
 RECURSIVE FillGap(_, _, _)
-FillGap(st, upto, mode) == IF st.nw > upto THEN st ELSE FillGap(FillPut(st, st.nw, NullCell, NullCell, mode), upto, mode)
+FillGap(st, upto, mode) == IF st.nw > upto THEN st ELSE FillGap(FillPut(st, st.nw, NullCell, NullCell, NullCell, mode), upto, mode)
 \* release the held rows of a group that has a value; returns <<state, rows>>
 FillRelease(st) == IF st.some THEN <<[st EXCEPT !.held = <<>>], st.held>> ELSE <<st, <<>>>>
 FillClose(st, mode) ==
@@ -524,8 +683,13 @@ FillChunk(st, rows, out, mode) ==
   ELSE LET x  == Head(rows)
            cl == IF st.has /\ st.g # x.g THEN FillClose(st, mode) ELSE <<st, <<>>>>
            s0 == IF cl[1].has THEN cl[1] ELSE [FillEmpty EXCEPT !.has = TRUE, !.g = x.g]
-           s1 == FillPut(FillGap(s0, x.w - 1, mode), x.w, x.a, x.b, mode)
+           s1 == FillPut(FillGap(s0, x.w - 1, mode), x.w, x.a, x.b, x.l, mode)
        IN FillChunk(s1, Tail(rows), out \o cl[2], mode)
+\* mutation seed "fill_fastpath_skips_cells": the fast path "the first chunk holds a row for every window: forward it
+\* untouched" taken for every fill mode - the cells of a present window that have no value are never filled
+FastPath(first, rows, mode) ==
+  /\ "fill_fastpath_skips_cells" \in Dev /\ first /\ mode # "none"
+  /\ Len(rows) = WHi - WLo + 1 /\ \A i \in 1..Len(rows) : rows[i].g = rows[1].g /\ rows[i].w = WLo + i - 1
 
 ---- (* LimitOp: limit_transform.go - rows still to skip / to return are carried *)
 RECURSIVE LimChunk(_, _, _)
@@ -550,28 +714,40 @@ Arrive(e) ==
   /\ LET all == cm.seen \o cm.buf IN IF all = <<>> THEN TRUE ELSE CLeq(all[Len(all)], e)
   /\ cm' = [cm EXCEPT !.buf = Append(@, e)]
 
-\* a chunk boundary: the operators process the buffered chunk
-Cut ==
-  /\ ~cm.done /\ cm.buf # <<>>
-  /\ LET agg0 == IF "agg_reset_at_chunk" \in Dev THEN AggEmpty ELSE cm.agg
-         lost == IF "agg_reset_at_chunk" \in Dev THEN AggFlush(cm.agg) ELSE <<>>
-         ar   == AggChunk(agg0, cm.buf, lost)
-         f0   == IF "fillprev_forgets_at_chunk" \in Dev THEN [cm.fill EXCEPT !.pa = NullCell, !.pb = NullCell] ELSE cm.fill
-         fr   == FillChunk(f0, ar[2], <<>>, cm.mode)
-         l0   == IF "limit_per_chunk" \in Dev THEN [skip |-> cm.off, take |-> cm.lim] ELSE cm.ls
-         lr   == LimChunk(l0, cm.buf, <<>>)
-     IN cm' = [cm EXCEPT !.seen = @ \o cm.buf, !.buf = <<>>, !.agg = ar[1], !.fill = fr[1], !.ls = lr[1],
-                         !.outF = @ \o fr[2], !.outL = @ \o lr[2]]
+\* the operators process the buffered chunk; last: the stream ends with it (the aggregate operator flushes its pending
+\* window into the same output chunk, the fill operator closes its group)
+Process(last) ==
+  LET agg0 == IF "agg_reset_at_chunk" \in Dev THEN AggEmpty ELSE AggCarry(cm.agg, cm.buf)
+      lost == IF "agg_reset_at_chunk" \in Dev THEN AggFlush(cm.agg) ELSE <<>>
+      ar   == AggChunk(agg0, cm.buf, lost)
+      rows == IF last THEN ar[2] \o AggFlush(ar[1]) ELSE ar[2]
+      f0   == IF "fillprev_forgets_at_chunk" \in Dev THEN [cm.fill EXCEPT !.pa = NullCell, !.pb = NullCell, !.pl = NullCell] ELSE cm.fill
+      fr   == FillChunk(f0, rows, <<>>, cm.mode)
+      fc   == IF last THEN FillClose(fr[1], cm.mode) ELSE <<fr[1], <<>>>>
+      outf == IF FastPath(cm.seen = <<>> /\ last, rows, cm.mode) THEN rows ELSE fr[2] \o fc[2]
+      l0   == IF "limit_per_chunk" \in Dev THEN [skip |-> cm.off, take |-> cm.lim] ELSE cm.ls
+      lr   == LimChunk(l0, cm.buf, <<>>)
+  IN [cm EXCEPT !.seen = @ \o cm.buf, !.buf = <<>>, !.agg = IF last THEN AggEmpty ELSE ar[1], !.fill = fc[1], !.ls = lr[1],
+                !.outF = @ \o outf, !.outL = @ \o lr[2], !.done = last]
 
-\* end of the stream: pending state is flushed
+\* a chunk boundary
+Cut == /\ ~cm.done /\ cm.buf # <<>>
+       /\ cm' = Process(FALSE)
+
+\* the buffered chunk is the last one
+CutLast == /\ ~cm.done /\ cm.buf # <<>>
+           /\ cm' = Process(TRUE)
+
+\* end of the stream after a chunk boundary: pending state is flushed
 Finish ==
   /\ ~cm.done /\ cm.buf = <<>>
   /\ LET fr == FillChunk(cm.fill, AggFlush(cm.agg), <<>>, cm.mode)
          fc == FillClose(fr[1], cm.mode)
-     IN cm' = [cm EXCEPT !.done = TRUE, !.outF = @ \o fr[2] \o fc[2]]
+     IN cm' = [cm EXCEPT !.done = TRUE, !.agg = AggEmpty, !.fill = fc[1], !.outF = @ \o fr[2] \o fc[2]]
 
 CNext == /\ \/ \E e \in CElem : Arrive(e)
             \/ Cut
+            \/ CutLast
             \/ Finish
          /\ UNCHANGED <<data, cur, hist>>
 
